@@ -1,8 +1,8 @@
 SPECIFICATION Spec
 CONSTANTS
-  Scheds <- SchedsBig
-  Blocking = {2}
-  MaxNow = 7
+  Scheds <- SchedsBetween
+  Blocking = {}
+  MaxNow = 4
   MaxStep = 3
   MaxOps = 4
   Chain = "none"
